@@ -3,7 +3,8 @@ SPEC = {
     "id": "C02",
     "level": "other",
     "sidecars": ["utils"],
-    "functions": [U + "normpath"],
+    "functions": [U + "normpath", "ural/canonicalize_url.py:canonicalize_url"],
+    "function_sidecars": {"ural/canonicalize_url.py:canonicalize_url": ["canonicalize_url"]},
     "bounded": ["bcheck.c02"],
     "explanation": (
         "Deciding step is BOUNDED: relational clauses between calls of the real canonicalize_url - idempotence, the mode round trips "
